@@ -375,51 +375,177 @@ def eval_nesting(ck, w, prop, rule):
 
 
 OPS_SCOPES = {
-    # property -> (crates, file prefixes): compile-side / bookkeeping code whose integer arithmetic and comparisons are profiled too
+    # property -> (crates, file prefixes): code whose operations (resolved callees, overloaded operators, built-in integer operators and comparisons) are profiled
     'C19': (['circuits'], ('circuits/src/parsing/',)),
-    'C14': (['proofs'], ('proofs/src/poly/kzg/', 'proofs/src/poly/query.rs')),
-    'C02': (['proofs'], ('proofs/src/plonk/permutation/', 'proofs/src/plonk/keygen.rs')),
+    'C14': (['proofs'], ('proofs/src/poly/kzg/', 'proofs/src/poly/query.rs', 'proofs/src/utils/arithmetic.rs')),
+    'C02': (['proofs'], ('proofs/src/plonk/permutation/', 'proofs/src/plonk/keygen.rs', 'proofs/src/dev/mod.rs', 'proofs/src/dev/util.rs', 'proofs/src/plonk/lookup/verifier.rs',
+                         'proofs/src/plonk/trash/verifier.rs', 'proofs/src/plonk/vanishing/verifier.rs')),
+    'C01': (['proofs'], ('proofs/src/plonk/prover.rs', 'proofs/src/plonk/verifier.rs', 'proofs/src/plonk/evaluation.rs', 'proofs/src/plonk/lookup/prover.rs',
+                         'proofs/src/plonk/trash/prover.rs', 'proofs/src/plonk/vanishing/prover.rs', 'proofs/src/poly/domain.rs')),
+    'C03': (['proofs', 'zk_stdlib'], ('proofs/src/transcript/', 'zk_stdlib/src/lib.rs')),
+    'C04': (['circuits'], ('circuits/src/field/native/', 'circuits/src/field/decomposition/', 'circuits/src/vec/', 'circuits/src/map/', 'circuits/src/utils/',
+                           'circuits/src/instructions/')),
+    'C05': (['circuits'], ('circuits/src/field/foreign/', 'circuits/src/biguint/')),
+    'C06': (['circuits'], ('circuits/src/ecc/',)),
+    'C07': (['circuits'], ('circuits/src/hash/',)),
+    'C15': (['proofs', 'circuits'], ('proofs/src/poly/commitment.rs', 'proofs/src/poly/kzg/msm.rs', 'circuits/src/verifier/accumulator.rs', 'circuits/src/verifier/msm.rs')),
+    'C16': (['proofs', 'zk_stdlib', 'zkir', 'aggregator'], ('proofs/src/utils/', 'proofs/src/plonk/mod.rs', 'proofs/src/poly/kzg/', 'proofs/src/plonk/verifier.rs',
+                                                            'proofs/src/plonk/permutation.rs', 'zk_stdlib/src/utils/', 'zkir/src/zkir.rs', 'aggregator/src/light_aggregator.rs')),
+    'C08': (['circuits', 'zk_stdlib', 'zkir', 'aggregator'], ('circuits/src/', 'zk_stdlib/src/', 'zkir/src/', 'aggregator/src/')),
+    'C17': (['proofs'], ('proofs/src/plonk/permutation.rs', 'proofs/src/plonk/permutation/keygen.rs', 'proofs/src/plonk/keygen.rs', 'proofs/src/plonk/circuit.rs',
+                         'proofs/src/poly/mod.rs', 'proofs/src/poly/domain.rs')),
+    'C18': (['zkir'], ('zkir/src/',)),
+    'C20': (['aggregator', 'circuits'], ('aggregator/src/', 'circuits/src/verifier/')),
 }
+OPS_CONFIGS = ('default', 'truncated')
+
+
+def ops_functions(w, prop):
+    from collections import Counter
+    if prop in ('C10', 'C11'):
+        seen = Counter(f['_xid'] for f in w.all_fns(['curves']))
+        for f in w.all_fns(['curves']):
+            if '::tests::' in f['_nid'] or '/tests' in f['file'] or f['file'].endswith('tests.rs') or seen[f['_xid']] > 1:
+                continue
+            if (prop == 'C11') == curves_scope(f['file'], 'C11'):
+                yield f
+        return
+    crates, prefixes = OPS_SCOPES[prop]
+    crates = [c for c in crates if c in w.crates()]
+    seen = Counter(f['_xid'] for f in w.all_fns(crates))
+    for f in w.all_fns(crates):
+        if '::tests::' in f['_nid'] or '/tests' in f['file'] or f['file'].endswith('tests.rs') or not f['file'].startswith(prefixes) or seen[f['_xid']] > 1:
+            continue
+        if prop == 'C08' and not any(t in (f.get('name') or '') for t in ('public_input', 'publish', 'format_instance', 'committed_scalars')):
+            continue            # the encoders and binders of public inputs, wherever they live
+        yield f
+
+
+RESTRICTING = ('take', 'skip', 'filter', 'step_by', 'take_while', 'skip_while', 'filter_map', 'nth', 'split_at', 'split_first', 'split_last', 'find', 'position',
+               'truncate', 'pop', 'dedup', 'retain')
+
+
+def restrict_profile(f):
+    """{kind: number of sites} of the constructs that NARROW an iteration or a collection: restricting iterator adaptors, sub-slicing with a range,
+    `continue` / `break` inside loops"""
+    from collections import Counter
+    prof = Counter()
+    for n in walk(f['body']):
+        k = n.get('k')
+        if k == 'mcall' and n.get('m') in RESTRICTING:
+            c = callee(n) or ''
+            if c.startswith(('core::iter', 'core::slice', 'alloc::vec', 'alloc::collections', 'rayon', '<')) or '::Iterator::' in c or 'Iterator' in c:
+                prof[n['m']] += 1
+        elif k == 'index' and 'Range' in (n.get('ixt') or ''):
+            prof['[range]'] += 1
+        elif k in ('continue', 'break'):
+            prof[k] += 1
+        elif k == 'ret':
+            e = peel(n['e']) if isinstance(n.get('e'), dict) else None
+            ok_ctor = e is not None and e.get('k') == 'call' and ((e.get('f') or '') + (peel(e.get('fe', {})).get('p') or '') if isinstance(e.get('fe'), dict) else (e.get('f') or '')).endswith('Result::Ok')
+            unit = e is None or (e.get('k') == 'tup' and not e.get('es'))
+            if ok_ctor or unit:
+                prof['early success return'] += 1
+    return dict(prof)
 
 
 def mine_ops(w, config='default'):
-    from collections import Counter
-    rows = []
-    for prop, (crates, prefixes) in sorted(OPS_SCOPES.items()):
-        seen = Counter(f['_xid'] for f in w.all_fns(crates))
-        for f in w.all_fns(crates):
-            if '::tests::' in f['_nid'] or '/tests' in f['file'] or not f['file'].startswith(prefixes) or seen[f['_xid']] > 1:
-                continue
-            for op, depths in sorted(nesting_profile(f, builtin=True).items()):
-                rows.append(dict(property=prop, config=config, fn=f['_xid'], op=op, depths=depths))
-    return rows
+    """{property: {function: {operation: depths}}} and {property: {function: {restriction kind: sites}}}"""
+    ops, rst = {}, {}
+    for prop in sorted(OPS_SCOPES) + ['C10', 'C11']:
+        if config == 'devcurves' and prop not in ('C10', 'C11'):
+            continue
+        o, r = ops.setdefault(prop, {}), rst.setdefault(prop, {})
+        for f in ops_functions(w, prop):
+            if prop not in ('C10', 'C11'):          # the curves crate has its own operation table (nesting.json)
+                o[f['_xid']] = nesting_profile(f, builtin=True)
+            rp = restrict_profile(f)
+            if rp:
+                r[f['_xid']] = rp
+    return ops, rst
+
+
+def write_ops_tables(worlds):
+    """worlds: {config: World}.  The default configuration is stored in full, the others as the functions that differ from it."""
+    import json, os
+    from .. import facts
+    out_o, out_r = {}, {}
+    base_o = base_r = None
+    for cfg in OPS_CONFIGS + ('devcurves',):
+        o, r = mine_ops(worlds[cfg], cfg)
+        if base_o is None:
+            base_o, base_r = o, r
+            out_o[cfg], out_r[cfg] = o, r
+        else:
+            out_o[cfg] = {p: {fn: v for fn, v in d.items() if base_o.get(p, {}).get(fn) != v} for p, d in o.items()}
+            out_o[cfg + ':absent'] = {p: sorted(fn for fn in base_o.get(p, {}) if fn not in o.get(p, {})) for p in o}
+            out_r[cfg] = {p: {fn: v for fn, v in d.items() if base_r.get(p, {}).get(fn) != v} for p, d in r.items()}
+            out_r[cfg + ':absent'] = {p: sorted(fn for fn in base_r.get(p, {}) if fn not in r.get(p, {})) for p in r}
+    json.dump(out_o, open(os.path.join(facts.VERIF, 'rules', 'ops.json'), 'w'))
+    json.dump(out_r, open(os.path.join(facts.VERIF, 'rules', 'restrict.json'), 'w'))
+    return sum(len(d) for d in out_o['default'].values()), sum(len(d) for d in out_r['default'].values())
+
+
+def _table(name, prop, config):
+    import json, os
+    from .. import facts
+    d = json.load(open(os.path.join(facts.VERIF, 'rules', name)))
+    t = dict(d.get('default', {}).get(prop, {}))
+    if config != 'default' and config in d:
+        for fn in d.get(config + ':absent', {}).get(prop, []):
+            t.pop(fn, None)
+        t.update(d[config].get(prop, {}))
+    return t
 
 
 def eval_ops(ck, w, prop, rule):
-    import json, os
-    from .. import facts
-    rows = [r for r in json.load(open(os.path.join(facts.VERIF, 'rules', 'ops.json'))) if r['property'] == prop and r.get('config', 'default') == ck.config]
-    ck.rule(rule, 'operation profile of the bookkeeping code of this property (rules/ops.json): for every function in ' + ', '.join(OPS_SCOPES[prop][1]) +
+    if any(r == rule for r in ck.rules):
+        return
+    table = _table('ops.json', prop, ck.config)
+    ck.rule(rule, 'operation profile (rules/ops.json): for every function in ' + ', '.join(OPS_SCOPES[prop][1]) +
                   ' and every operation it performs — resolved callees, overloaded operators and the BUILT-IN integer operators and comparisons — each site of '
-                  'the reference tree still exists at the same or a shallower branch depth.  Index, offset and cursor arithmetic (`offset += n`, `i < len`, '
-                  '`a - 1`) is where off-by-one errors live; an operator that disappears (replaced by another one) or moves under a condition is reported.  '
-                  'Added operations never fire; the values themselves are not decided.')
-    byfn = {}
-    for r in rows:
-        byfn.setdefault(r['fn'], []).append(r)
+                  'the reference tree still exists at the same or a shallower branch depth.  Index, offset, width and cursor arithmetic (`offset += n`, `i < len`, '
+                  '`bits - 1`) is where off-by-one errors live; an operation that disappears (replaced by another one) or moves under a condition is reported.  '
+                  'Added operations never fire; the values themselves are not decided.  New helpers are expanded and renamed functions are matched first.')
     n = 0
-    for fx, rs in sorted(byfn.items()):
+    for fx, ops in sorted(table.items()):
         f = w.fn_x(fx, required=False)
         if f is None:
-            ck.bad(rule, f'{fx}:anchor', f'function {fx} of the operation table not found (renamed/removed: needs triage)')
+            ck.bad(rule, f'{fx}:anchor', f'function {fx} of the operation table not found (removed: needs triage)')
             continue
         cur = nesting_profile(f, builtin=True)
-        bad = [(r['op'], r['depths'], cur.get(r['op'], [])) for r in rs if not profile_dominates(cur.get(r['op'], []), r['depths'])]
-        n += len(rs)
+        bad = [(op, ref, cur.get(op, [])) for op, ref in ops.items() if not profile_dominates(cur.get(op, []), ref)]
+        n += len(ops)
         if bad:
             for op, ref, now in bad[:4]:
-                ck.bad(rule, f'{fx}|{short(op)}', f'{fx}: `{op}` had sites at branch depths {ref} on the reference tree and has {now} now: an operation of the '
-                       f'bookkeeping arithmetic was removed, replaced or moved under a condition', hirq.fn_loc(f))
+                ck.bad(rule, f'{fx}|{short(op)}', f'{fx}: `{op}` had sites at branch depths {ref} on the reference tree and has {now} now: an operation was removed, '
+                       f'replaced or moved under a condition', hirq.fn_loc(f))
         else:
-            ck.ok(rule, f'{fx}', f'{len(rs)} operations keep their sites', hirq.fn_loc(f))
+            ck.ok(rule, f'{fx}', f'{len(ops)} operations keep their sites', hirq.fn_loc(f))
     ck.floor(rule, 'operation profiles', n, 100)
+
+
+def eval_restrict(ck, w, prop, rule):
+    """N2: iteration domains are not narrowed"""
+    from ..core import reference_fn_ids
+    table = _table('restrict.json', prop, ck.config)
+    ref = reference_fn_ids() or frozenset()
+    ck.rule(rule, 'iteration domains are not narrowed (rules/restrict.json): no function of ' + (', '.join(OPS_SCOPES[prop][1]) if prop in OPS_SCOPES else 'the curves crate in the scope of this property') + ' gains a construct that narrows an '
+                  'iteration or a collection — a restricting iterator adaptor (filter, skip, take, step_by, take_while, filter_map, find, position, nth, split_*), '
+                  'a truncation (truncate, pop, retain, dedup), a sub-slice by a range, a `continue`, a `break` or an early `return Ok(..)` / `return;` — beyond those it has on the reference tree.  '
+                  'Skipping an element of a protocol fold, of a per-element check or of a table is how one side of a protocol, or one element of a batch, '
+                  'silently falls out of what is enforced.  Functions that are new are expanded into their callers first; removing a restriction never fires.')
+    n = 0
+    for f in ops_functions(w, prop):
+        if f['_nid'] not in ref:
+            continue            # a new function: judged where it is expanded
+        n += 1
+        allowed = table.get(f['_xid'], {})
+        cur = restrict_profile(f)
+        extra = sorted((k, v, allowed.get(k, 0)) for k, v in cur.items() if v > allowed.get(k, 0))
+        if extra or cur:
+            ck.record(rule, f'{f["_xid"]}', not extra, f'narrowing constructs {cur} (reference: {allowed})',
+                      f'{f["_xid"]} gained narrowing construct(s) (kind, sites now, sites on the reference tree): {extra}: elements that were processed are now skipped',
+                      hirq.fn_loc(f))
+    ck.ok(rule, 'functions inspected', f'{n} functions')
+    ck.floor(rule, 'functions inspected', n, 20)
